@@ -127,6 +127,9 @@ type ABWorld struct {
 	Cfg             ABCfg
 	N               [2]*Node
 	lep             tcpip.Endpoint
+	placed          uint32 // the initial sequence number queued for connection 0 ...
+	havePlaced      bool
+	PlacementMissed bool // ... and whether somebody else drew it
 	lwq             *waiter.Queue
 	conns           []*abConn
 	phantoms        int
@@ -316,6 +319,12 @@ func (w *ABWorld) onEmit(f *Frame) {
 	}
 	if seg.Flags&0x02 != 0 && !c.haveISS[side] {
 		c.iss[side], c.haveISS[side] = seg.Seq, true
+		if side == 0 && c.id == 0 && w.havePlaced && seg.Seq != w.placed {
+			// the value queued for this connection's initial sequence number was drawn by somebody else (another
+			// connection's goroutine got in between): the run says nothing about where the sequence space starts
+			w.PlacementMissed = true
+			w.Probes["iss_placement_missed"]++
+		}
 	}
 	if seg.Flags&0x04 != 0 {
 		c.rstSent[side]++
@@ -386,6 +395,7 @@ func (w *ABWorld) connect(ci int) {
 			target = issBase(w.Cfg.ISSMode, w.Cfg.ISSMid) - uint32(w.Cfg.ISSBack) - w.Cfg.KPassive
 		}
 		rand.VerifNext([]byte{byte(target), byte(target >> 8), byte(target >> 16), byte(target >> 24)})
+		w.placed, w.havePlaced = target, true
 	}
 	e := ep.Connect(tcpip.FullAddress{Addr: w.addr(1), Port: abPort})
 	c.s[0] = &abSide{ep: ep, wq: wq, target: int64(w.Cfg.Bytes[ci*2])}
